@@ -18,11 +18,13 @@ import (
 
 // Case: lattice points pts (0..100); the real input is the exact affine image
 //
-//	x = (lat + J*2^M) * 2^K
+//	x = (lat + J*2^M) * Mul * 2^K        (Mul a small odd integer, default 1)
 //
 // (a scaled copy, offset by a large multiple of the spacing). Every such x is
-// exactly representable (checked), so the judged lattice coordinates are the
-// true coordinates of the input up to that affine map.
+// exactly representable (checked: the integer (lat + J*2^M)*Mul stays below
+// 2^52), so the judged lattice coordinates are the true coordinates of the
+// input up to that affine map, and dividing by Mul gives the lattice value
+// back exactly (IEEE division is correctly rounded).
 type Case struct {
 	Id  int     `json:"id"`
 	Tag string  `json:"tag,omitempty"`
@@ -30,6 +32,7 @@ type Case struct {
 	K   int     `json:"k"`
 	J   []int   `json:"j"`
 	M   int     `json:"m"`
+	Mul int     `json:"mul"`
 }
 
 type line struct {
@@ -46,9 +49,9 @@ type line struct {
 }
 
 func (c Case) to(lat, j int) (float64, error) {
-	base := float64(j)*math.Ldexp(1, c.M) + float64(lat)
+	base := (float64(j)*math.Ldexp(1, c.M) + float64(lat)) * float64(c.Mul)
 	if math.Abs(base) >= math.Ldexp(1, 52) {
-		return 0, fmt.Errorf("offset %d*2^%d leaves no room for the lattice", j, c.M)
+		return 0, fmt.Errorf("offset %d*2^%d times %d leaves no room for the lattice", j, c.M, c.Mul)
 	}
 	return math.Ldexp(base, c.K), nil
 }
@@ -59,7 +62,7 @@ func (c Case) from(x float64, j int) (int, bool) {
 	if math.IsNaN(x) || math.IsInf(x, 0) {
 		return 0, false
 	}
-	lat := math.Ldexp(x, -c.K) - float64(j)*math.Ldexp(1, c.M)
+	lat := math.Ldexp(x, -c.K)/float64(c.Mul) - float64(j)*math.Ldexp(1, c.M)
 	r := math.Round(lat)
 	if r != lat || math.Abs(r) > 1e6 {
 		return 0, false
@@ -71,6 +74,9 @@ func (c Case) from(x float64, j int) (int, bool) {
 func runOne(c Case) (line, error) {
 	if len(c.J) != 2 {
 		c.J = []int{0, 0}
+	}
+	if c.Mul == 0 {
+		c.Mul = 1
 	}
 	ln := line{K: "dt", Case: c.Id, N: len(c.Pts), Pts: c.Pts, Pos: [][]int{}, Tris: [][]int{}, Flat: true, Exact: true, Wf: true}
 	in := make([]vector2.Float64, len(c.Pts))
